@@ -36,9 +36,9 @@ def f_e(d, b):
     return {"e": d, "bn": b["n"]}
 
 
-def build(d, shape, c_json=False):
+def build(d, shape, c_json=False, path_source=False):
     import uberjob
-    from uberjob.stores import JsonFileStore, PickleFileStore
+    from uberjob.stores import JsonFileStore, PathSource, PickleFileStore
 
     plan = uberjob.Plan()
     reg = uberjob.Registry()
@@ -60,6 +60,16 @@ def build(d, shape, c_json=False):
         reg.add(e, stores["e"])
         nodes["e"] = e
     deps = {"b": ["a"], "c": ["b"], "d": ["a", "c"], "e": ["d", "b"]}
+    if path_source:
+        # a second source: a file that b merely depends on (a PathSource, the same object for the whole history): b is out of date when that
+        # file is newer. It is kept out of `nodes` (it is not computed) but has a store entry and a place in the dependency table.
+        stores["p"] = PathSource(P("stamp.txt"))
+        with open(P("stamp.txt"), "w") as f:
+            f.write("stamp 0")
+        os.utime(P("stamp.txt"), (1_000_000_000, 1_000_000_000))
+        psrc = reg.source(plan, stores["p"])
+        plan.add_dependency(psrc, b)
+        deps["b"] = ["a", "p"]
     return plan, reg, stores, nodes, deps
 
 
@@ -76,7 +86,7 @@ def scratch_values(aval, names):
 
 def state(stores, names):
     st = {}
-    for n in names:
+    for n in list(names) + [k for k in stores if k == "p" and k not in names]:
         p = stores[n].path
         try:
             s = os.stat(p)
@@ -89,6 +99,9 @@ def state(stores, names):
 def ood(st, deps, names):
     out = {}
     anc = {}
+    if "p" in st:
+        anc["p"] = set()
+        out["p"] = st["p"] is None
     for n in names:
         if n == "a":
             out[n] = st[n] is None
